@@ -56,6 +56,7 @@ struct Ranker {
 struct IsoWorld {
    World w; Client * s[3]; Client * obs;
    std::vector<std::string> viol, drift;
+   std::set<std::pair<std::string, std::string> > hush;   // (session, node path): its mirror may lag for this node because of a QUIET change (documented: "suppress the node-updated-notifications"), until it agrees again
    void V(const std::string & x) {if (viol.size() < 8) viol.push_back(x);}
    void D(const std::string & x) {if (drift.size() < 8) drift.push_back(x);}
 
@@ -87,6 +88,14 @@ struct IsoWorld {
       if ((n.GetDepth() == 1)&&(IsObsPath(rp))) return;
       for (DataNodeRefIterator it = n.GetChildIterator(); it.HasData(); it++) Walk(*it.GetValue()(), out);
    }
+   // the what-code an archived WhatCodeQueryFilter asks for (0: the value is not a filter archive)
+   static uint32 FilterWhat(const Message & pm, const String & fn)
+   {
+      MessageRef fm; if (pm.FindMessage(fn, fm).IsError()) return 0;
+      ConstQueryFilterRef q = GetGlobalQueryFilterFactory()()->CreateQueryFilter(*fm()); if (q() == NULL) return 0;
+      for (uint32 wc=1; wc<=16; wc++) {ConstMessageRef t(GetMessageFromPool(wc)); if (q()->Matches(t, NULL)) return wc;}
+      return 0;
+   }
    static std::string ParamValue(const Message & m, const String & fn)
    {
       uint32 tc = 0, cnt = 0; (void) m.GetInfo(fn, &tc, &cnt); char b[96];
@@ -103,7 +112,7 @@ struct IsoWorld {
          sn.conn.insert(c->name);
          const Message & pm = c->sess->GetParametersConst();
          for (MessageFieldNameIterator it = pm.GetFieldNameIterator(); it.HasData(); it++) { const std::string fn = it.GetFieldName()();
-            if (fn.compare(0, 10, "SUBSCRIBE:") == 0) sn.psub[c->name].insert(ToModelPatternString(fn.substr(10)));
+            if (fn.compare(0, 10, "SUBSCRIBE:") == 0) {char fb[24]; snprintf(fb, sizeof(fb), "#%u", FilterWhat(pm, it.GetFieldName())); sn.psub[c->name].insert(ToModelPatternString(fn.substr(10)) + fb);}
             else { std::string v = ParamValue(pm, it.GetFieldName()); if (fn == PR_NAME_SESSION) v = NameOfId(v); sn.params[c->name].insert(fn + "=" + v); } }
          for (std::map<std::string, uint32>::const_iterator j = c->mirror.begin(); j != c->mirror.end(); ++j) {
             if (IsObsPath(j->first)) continue;
@@ -120,33 +129,59 @@ struct IsoWorld {
    }
 
    // ---- the property's clauses that need no model: marks = recomputed match counts, mirrors = what the subscriptions select
+   struct FPat {std::vector<std::string> pat; uint32 f;};
+   static std::map<std::string, std::vector<FPat> > PatsOf(const Snap & sn)
+   {
+      std::map<std::string, std::vector<FPat> > pats;   // session -> normalised patterns with the what-code their filter asks for
+      for (std::map<std::string, std::set<std::string> >::const_iterator i = sn.psub.begin(); i != sn.psub.end(); ++i) for (std::set<std::string>::const_iterator j = i->second.begin(); j != i->second.end(); ++j) {
+         const size_t h = j->rfind('#'); const std::string p = j->substr(0, h); FPat fp; fp.pat = SplitPath((p[0] == '/') ? p : ("/*/*/" + p)); fp.f = (uint32) atoi(j->c_str()+h+1); pats[i->first].push_back(fp); }
+      return pats;
+   }
    void CheckMarksAndMirrors(const Snap & sn, const char * when)
    {
-      std::map<std::string, std::vector<std::vector<std::string> > > pats;   // session -> normalised patterns
-      for (std::map<std::string, std::set<std::string> >::const_iterator i = sn.psub.begin(); i != sn.psub.end(); ++i) for (std::set<std::string>::const_iterator j = i->second.begin(); j != i->second.end(); ++j)
-         pats[i->first].push_back(SplitPath(((*j)[0] == '/') ? *j : ("/*/*/" + *j)));
+      std::map<std::string, std::vector<FPat> > pats = PatsOf(sn);
+      // marks: by path only (the filters are applied when a change is notified)
       for (std::map<std::string, uint32>::const_iterator n = sn.tree.begin(); n != sn.tree.end(); ++n) {
          const std::vector<std::string> path = SplitPath(n->first);
          std::map<std::string, uint32> expect;
-         for (std::set<std::string>::const_iterator c = sn.conn.begin(); c != sn.conn.end(); ++c) {uint32 k = 0; const std::vector<std::vector<std::string> > & pp = pats[*c]; for (size_t q=0; q<pp.size(); q++) if (PatMatch(pp[q], path)) k++; if (k) expect[*c] = k;}
+         for (std::set<std::string>::const_iterator c = sn.conn.begin(); c != sn.conn.end(); ++c) {uint32 k = 0; const std::vector<FPat> & pp = pats[*c]; for (size_t q=0; q<pp.size(); q++) if (PatMatch(pp[q].pat, path)) k++; if (k) expect[*c] = k;}
          std::map<std::string, uint32> got; std::map<std::string, std::map<std::string, uint32> >::const_iterator g = sn.marks.find(n->first); if (g != sn.marks.end()) got = g->second;
          if (got != expect) { std::string a, b; char t[48];
             for (std::map<std::string, uint32>::iterator x = got.begin(); x != got.end(); ++x) {snprintf(t, sizeof(t), "%s:%u ", x->first.c_str(), x->second); a += t;}
             for (std::map<std::string, uint32>::iterator x = expect.begin(); x != expect.end(); ++x) {snprintf(t, sizeof(t), "%s:%u ", x->first.c_str(), x->second); b += t;}
             V(std::string(when) + ": subscriber marks of node " + n->first + " are {" + a + "} but the connected sessions' subscriptions give {" + b + "}"); }
       }
+      // mirrors: what the subscriptions (path AND filter) select of the others' nodes - except where a quiet change made the mirror lag
       for (std::set<std::string>::const_iterator c = sn.conn.begin(); c != sn.conn.end(); ++c) {
-         std::map<std::string, uint32> expect; const std::vector<std::vector<std::string> > & pp = pats[*c];
+         std::map<std::string, uint32> expect; const std::vector<FPat> & pp = pats[*c];
          for (std::map<std::string, uint32>::const_iterator n = sn.tree.begin(); n != sn.tree.end(); ++n) {
             const std::vector<std::string> path = SplitPath(n->first);
             if ((path.size() >= 2)&&(path[1] == *c)) continue;
-            for (size_t q=0; q<pp.size(); q++) if (PatMatch(pp[q], path)) {expect[n->first] = n->second; break;} }
+            for (size_t q=0; q<pp.size(); q++) if ((PatMatch(pp[q].pat, path))&&((pp[q].f == 0)||(pp[q].f == n->second))) {expect[n->first] = n->second; break;} }
          std::map<std::string, uint32> got; std::map<std::string, std::map<std::string, uint32> >::const_iterator g = sn.mirror.find(*c); if (g != sn.mirror.end()) got = g->second;
+         // hushed nodes: forgiven while they differ, forgotten once they agree
+         for (std::set<std::pair<std::string, std::string> >::iterator h = hush.begin(); h != hush.end(); ) { if (h->first != *c) {++h; continue;}
+            const bool eIn = expect.count(h->second) > 0, gIn = got.count(h->second) > 0;
+            if ((eIn == gIn)&&((!eIn)||(expect[h->second] == got[h->second]))) {hush.erase(h++); continue;}
+            expect.erase(h->second); got.erase(h->second); ++h; }
          if (got != expect) { std::string d; char t[32];
             for (std::map<std::string, uint32>::iterator x = expect.begin(); x != expect.end(); ++x) if (!got.count(x->first)) d += " missing " + x->first; else if (got[x->first] != x->second) {snprintf(t, sizeof(t), " (%u, server %u)", got[x->first], x->second); d += " stale " + x->first + t;}
             for (std::map<std::string, uint32>::iterator x = got.begin(); x != got.end(); ++x) if (!expect.count(x->first)) d += " extra " + x->first;
             V(std::string(when) + ": the mirror of " + *c + " differs from what its subscriptions select:" + d); }
       }
+      for (std::set<std::pair<std::string, std::string> >::iterator h = hush.begin(); h != hush.end(); ) {if (!sn.conn.count(h->first)) hush.erase(h++); else ++h;}
+   }
+   // a QUIET PR_COMMAND_SETDATA: the sessions subscribed (by path) to the nodes it creates / overwrites are, by request, not told
+   void NoteQuiet(const J & c, const std::string & actor, const Snap & before, const Snap & after)
+   {
+      for (size_t i=0; i<c["sub"].size(); i++) NoteQuiet(c["sub"][i], actor, before, after);
+      if ((c["op"].str() != "SETDATA")||(c["x"].str() != "quiet")||(c["abs"].truthy())||(c["p"].size() == 0)) return;
+      std::map<std::string, std::vector<FPat> > pats = PatsOf(after);
+      std::vector<std::string> path; path.push_back((actor == "s3") ? "hB" : "hA"); path.push_back(actor);
+      for (size_t i=0; i<c["p"].size(); i++) { path.push_back(c["p"][i].str()); const std::string ps = JoinPath(path);
+         if ((i+1 < c["p"].size())&&(before.tree.count(ps))) continue;      // an intermediate node that existed already is not touched
+         for (std::set<std::string>::const_iterator s2 = after.conn.begin(); s2 != after.conn.end(); ++s2) { if (*s2 == actor) continue;
+            const std::vector<FPat> & pp = pats[*s2]; for (size_t q=0; q<pp.size(); q++) if (PatMatch(pp[q].pat, path)) {hush.insert(std::make_pair(*s2, ps)); break;} } }
    }
 
    // ---- what a client can see of another session: effective parameters and the tree through the observer's GETDATA
@@ -191,7 +226,8 @@ struct IsoWorld {
    {
       const std::string op = c["op"].str(); const std::string x = c["x"].str(); const uint32 pay = (uint32) c["pay"].i();
       if (op == "SETDATA") { MessageRef m = Msg(PR_COMMAND_SETDATA); std::string p = RealPathString(c, actor); if (c["abs"].truthy() && c["p"].size() == 0) p = "/";
-         (void) m()->AddMessage(p.c_str(), Msg(pay)); if (x == "index") {SetDataNodeFlags f; f.SetBit(SETDATANODE_FLAG_ADDTOINDEX); (void) m()->AddFlat(PR_NAME_FLAGS, f);} return m; }
+         (void) m()->AddMessage(p.c_str(), Msg(pay)); if (x == "index") {SetDataNodeFlags f; f.SetBit(SETDATANODE_FLAG_ADDTOINDEX); (void) m()->AddFlat(PR_NAME_FLAGS, f);}
+         if (x == "quiet") {SetDataNodeFlags f; f.SetBit(SETDATANODE_FLAG_QUIET); (void) m()->AddFlat(PR_NAME_FLAGS, f);} return m; }
       if (op == "REMOVEDATA") {MessageRef m = Msg(PR_COMMAND_REMOVEDATA); (void) m()->AddString(PR_NAME_KEYS, RealPathString(c, actor).c_str()); return m;}
       if (op == "INSERTORDEREDDATA") {MessageRef m = Msg(PR_COMMAND_INSERTORDEREDDATA); (void) m()->AddString(PR_NAME_KEYS, RealPathString(c, actor).c_str()); (void) m()->AddMessage(BeforeName(c, actor, false).c_str(), Msg(pay)); return m;}
       if (op == "REORDERDATA") {MessageRef m = Msg(PR_COMMAND_REORDERDATA); (void) m()->AddString(RealPathString(c, actor).c_str(), BeforeName(c, actor, true).c_str()); return m;}
@@ -201,7 +237,9 @@ struct IsoWorld {
       if (op == "SETPARAM") { MessageRef m = Msg(PR_COMMAND_SETPARAMETERS); const std::string v = c["v"].str();
          if (x == PR_NAME_PRIVILEGE_BITS) (void) m()->AddInt32(x.c_str(), atoi(v.c_str())); else (void) m()->AddString(x.c_str(), (x == PR_NAME_SESSION) ? IdOfName(v).c_str() : v.c_str());
          return m; }
-      if (op == "SUBSCRIBE") {MessageRef m = Msg(PR_COMMAND_SETPARAMETERS); (void) m()->AddBool((std::string("SUBSCRIBE:") + RealPathString(c, actor)).c_str(), true); return m;}
+      if (op == "SUBSCRIBE") { MessageRef m = Msg(PR_COMMAND_SETPARAMETERS); const std::string pn = std::string("SUBSCRIBE:") + RealPathString(c, actor);
+         if (pay == 0) (void) m()->AddBool(pn.c_str(), true); else {MessageRef fm = GetMessageFromPool(); (void) WhatCodeQueryFilter(pay).SaveToArchive(*fm()); (void) m()->AddMessage(pn.c_str(), fm);}     // pay: the what-code the subscription's filter asks for
+         return m; }
       if (op == "REMOVEPARAM") { MessageRef m = Msg(PR_COMMAND_REMOVEPARAMETERS);
          if (x == "SUBSCRIBE:") (void) m()->AddString(PR_NAME_KEYS, (String("SUBSCRIBE:") + EscapeRegexTokens(RealPathString(c, actor).c_str())));
          else (void) m()->AddString(PR_NAME_KEYS, x.c_str());
@@ -219,9 +257,9 @@ struct IsoWorld {
    // the client's side of the subscription protocol: after it removed subscriptions it drops what its remaining ones do not select
    void PruneMirror(Client * c)
    {
-      std::vector<std::vector<std::string> > pats; const Message & pm = c->sess->GetParametersConst();
-      for (MessageFieldNameIterator it = pm.GetFieldNameIterator(); it.HasData(); it++) {const std::string fn = it.GetFieldName()(); if (fn.compare(0, 10, "SUBSCRIBE:") == 0) {const std::string p = fn.substr(10); pats.push_back(SplitPath((p[0] == '/') ? p : ("/*/*/"+p)));}}
-      for (std::map<std::string, uint32>::iterator i = c->mirror.begin(); i != c->mirror.end(); ) {bool keep = false; const std::vector<std::string> path = SplitPath(i->first); for (size_t q=0; q<pats.size(); q++) if (PatMatch(pats[q], path)) keep = true; if (keep) ++i; else c->mirror.erase(i++);}
+      std::vector<FPat> pats; const Message & pm = c->sess->GetParametersConst();
+      for (MessageFieldNameIterator it = pm.GetFieldNameIterator(); it.HasData(); it++) {const std::string fn = it.GetFieldName()(); if (fn.compare(0, 10, "SUBSCRIBE:") == 0) {const std::string p = fn.substr(10); FPat fp; fp.pat = SplitPath((p[0] == '/') ? p : ("/*/*/"+p)); fp.f = FilterWhat(pm, it.GetFieldName()); pats.push_back(fp);}}
+      for (std::map<std::string, uint32>::iterator i = c->mirror.begin(); i != c->mirror.end(); ) {bool keep = false; const std::vector<std::string> path = SplitPath(i->first); for (size_t q=0; q<pats.size(); q++) if ((PatMatch(pats[q].pat, path))&&((pats[q].f == 0)||(pats[q].f == i->second))) keep = true; if (keep) ++i; else c->mirror.erase(i++);}
    }
 
    void Setup()
@@ -233,7 +271,8 @@ struct IsoWorld {
       {MessageRef m = Msg(PR_COMMAND_SETDATA); m()->AddMessage("c", Msg(1)); w.Send(b, m);}
       {MessageRef m = Msg(PR_COMMAND_SETPARAMETERS); m()->AddString("myparam", "7"); m()->AddBool("SUBSCRIBE:*", true); m()->AddBool("SUBSCRIBE:a/*", true); w.Send(b, m);}
       {MessageRef m = Msg(PR_COMMAND_SETDATA); m()->AddMessage("a", Msg(1)); w.Send(c, m);}
-      {MessageRef m = Msg(PR_COMMAND_SETPARAMETERS); m()->AddBool("SUBSCRIBE:*/*", true); m()->AddBool("SUBSCRIBE:/*/*", true); w.Send(c, m);}
+      {MessageRef m = Msg(PR_COMMAND_SETPARAMETERS); m()->AddBool("SUBSCRIBE:*/*", true); m()->AddBool("SUBSCRIBE:/*/*", true);
+       MessageRef fm = GetMessageFromPool(); (void) WhatCodeQueryFilter(2).SaveToArchive(*fm()); m()->AddMessage("SUBSCRIBE:a", fm); w.Send(c, m);}
       w.Settle();
    }
 
@@ -245,7 +284,7 @@ struct IsoWorld {
       for (size_t i=0; i<exp["idx"].size(); i++) {std::string l; const J & q = exp["idx"][i][(size_t)1]; for (size_t k=0; k<q.size(); k++) {if (k) l += ','; l += q[k].str();} e.idx[JPath(exp["idx"][i][(size_t)0])] = l;}
       for (size_t i=0; i<exp["marks"].size(); i++) e.marks[JPath(exp["marks"][i][(size_t)0])][exp["marks"][i][(size_t)1].str()] = (uint32) exp["marks"][i][(size_t)2].i();
       for (size_t i=0; i<exp["params"].size(); i++) e.params[exp["params"][i][(size_t)0].str()].insert(exp["params"][i][(size_t)1].str() + "=" + exp["params"][i][(size_t)2].str());
-      for (size_t i=0; i<exp["psub"].size(); i++) {std::string p = JPath(exp["psub"][i][(size_t)2]); e.psub[exp["psub"][i][(size_t)0].str()].insert(exp["psub"][i][(size_t)1].truthy() ? p : p.substr(1));}
+      for (size_t i=0; i<exp["psub"].size(); i++) {std::string p = JPath(exp["psub"][i][(size_t)2]); char fb[24]; snprintf(fb, sizeof(fb), "#%d", (int) exp["psub"][i][(size_t)3].i()); e.psub[exp["psub"][i][(size_t)0].str()].insert((exp["psub"][i][(size_t)1].truthy() ? p : p.substr(1)) + fb);}
       for (size_t i=0; i<exp["conn"].size(); i++) e.conn.insert(exp["conn"][i].str());
       for (size_t i=0; i<exp["mirror"].size(); i++) e.mirror[exp["mirror"][i][(size_t)0].str()][JPath(exp["mirror"][i][(size_t)1])] = (uint32) exp["mirror"][i][(size_t)2].i();
       Ranker rg, re; rg.Build(got.tree); re.Build(e.tree);
@@ -328,6 +367,7 @@ static void DoCommandStep(IsoWorld & iw, const J & step, FullView & before, Full
    // nobody but the sender may have been disconnected, and hosts of others stay
    for (int i=0; i<3; i++) if ((iw.s[i]->name != who)&&(before.sn.conn.count(iw.s[i]->name))&&((!iw.w.Attached(iw.s[i]))||(iw.s[i]->peerClosed))) iw.V(std::string(when) + ": a command of " + who + " disconnected " + iw.s[i]->name);
    if ((iw.w.Attached(actor))&&(actor->sess->GetParametersConst().HasName(PR_NAME_PRIVILEGE_BITS))) iw.V(std::string(when) + ": the session obtained privilege bits");
+   iw.NoteQuiet(cmd, who, before.sn, after.sn);
    iw.CheckMarksAndMirrors(after.sn, when);
    if (step.has("st")) iw.CompareWithModel(after.sn, step["st"], who, false, when);
 }
@@ -346,7 +386,7 @@ static void CheckErased(IsoWorld & iw, const std::string & who, const FullView *
    for (std::map<std::string, std::map<std::string, uint32> >::iterator i = after.sn.marks.begin(); i != after.sn.marks.end(); ++i) for (std::map<std::string, uint32>::iterator j = i->second.begin(); j != i->second.end(); ++j)
       if ((j->second)&&((j->first == who)||(j->first[0] == '#'))) iw.V(std::string(when) + ": node " + i->first + " still carries a subscriber mark of " + j->first);
    for (std::map<std::string, std::map<std::string, uint32> >::iterator i = after.sn.mirror.begin(); i != after.sn.mirror.end(); ++i) for (std::map<std::string, uint32>::iterator j = i->second.begin(); j != i->second.end(); ++j)
-      if ((j->first == root)||(j->first.compare(0, root.size()+1, root+"/") == 0)) iw.V(std::string(when) + ": subscriber " + i->first + " was not told that " + j->first + " is gone");
+      if (((j->first == root)||(j->first.compare(0, root.size()+1, root+"/") == 0))&&(!iw.hush.count(std::make_pair(i->first, j->first)))) iw.V(std::string(when) + ": subscriber " + i->first + " was not told that " + j->first + " is gone");
    if (before) for (int i=0; i<3; i++) if ((iw.s[i]->name != who)&&(before->sn.conn.count(iw.s[i]->name))) {
       const std::string pb = ProjText(before->sn, iw.s[i]->name, before->otree, before->oidx, before->eff), pa = ProjText(after.sn, iw.s[i]->name, after.otree, after.oidx, after.eff);
       if (pb != pa) iw.V(std::string(when) + ": the departure of " + who + " changed the projection of " + iw.s[i]->name + ":" + FirstDiff(pb, pa)); }
@@ -357,13 +397,13 @@ static void CheckErased(IsoWorld & iw, const std::string & who, const FullView *
 static void Probe(IsoWorld & iw, const J & expState, const char * when)
 {
    if ((!iw.obs->connected)||(!iw.w.Attached(iw.obs))) return;
-   std::map<std::string, std::vector<std::vector<std::string> > > pats;
-   for (size_t i=0; i<expState["psub"].size(); i++) {std::vector<std::string> v; if (!expState["psub"][i][(size_t)1].truthy()) {v.push_back("*"); v.push_back("*");} const J & p = expState["psub"][i][(size_t)2]; for (size_t k=0; k<p.size(); k++) v.push_back(iw.RealClause(p[k].str())); pats[expState["psub"][i][(size_t)0].str()].push_back(v);}
+   std::map<std::string, std::vector<IsoWorld::FPat> > pats;
+   for (size_t i=0; i<expState["psub"].size(); i++) {IsoWorld::FPat fp; fp.f = (uint32) expState["psub"][i][(size_t)3].i(); if (!expState["psub"][i][(size_t)1].truthy()) {fp.pat.push_back("*"); fp.pat.push_back("*");} const J & p = expState["psub"][i][(size_t)2]; for (size_t k=0; k<p.size(); k++) fp.pat.push_back(iw.RealClause(p[k].str())); pats[expState["psub"][i][(size_t)0].str()].push_back(fp);}
    {MessageRef m = Msg(PR_COMMAND_SETDATA); m()->AddMessage("a", Msg(11)); m()->AddMessage("a/b", Msg(12)); m()->AddMessage("q", Msg(13)); iw.w.Send(iw.obs, m); iw.w.Settle();}
    const char * rel[] = {"a", "a/b", "q"}; const uint32 pay[] = {11, 12, 13};
    for (int i=0; i<3; i++) { Client * c = iw.s[i]; if ((!c->connected)||(!iw.w.Attached(c))) continue;
-      for (int k=0; k<3; k++) { const std::string path = iw.obs->root + "/" + rel[k]; bool sel = false; const std::vector<std::vector<std::string> > & pp = pats[c->name];
-         for (size_t q=0; q<pp.size(); q++) if (PatMatch(pp[q], SplitPath(path))) sel = true;
+      for (int k=0; k<3; k++) { const std::string path = iw.obs->root + "/" + rel[k]; bool sel = false; const std::vector<IsoWorld::FPat> & pp = pats[c->name];
+         for (size_t q=0; q<pp.size(); q++) if ((PatMatch(pp[q].pat, SplitPath(path)))&&((pp[q].f == 0)||(pp[q].f == pay[k]))) sel = true;
          const bool has = (c->mirror.count(path) > 0)&&(c->mirror[path] == pay[k]);
          if (sel != has) iw.V(std::string(when) + ": probe node " + rel[k] + " set by the observer " + (has ? "WAS" : "was NOT") + " reported to " + c->name + ", whose subscriptions " + (sel ? "select it" : "do not select it")); } }
    {MessageRef m = Msg(PR_COMMAND_REMOVEDATA); m()->AddString(PR_NAME_KEYS, "*"); iw.w.Send(iw.obs, m); iw.w.Settle();}
@@ -434,6 +474,7 @@ static void IsoAllCuts(const J & beh, int everyNth)
       iw.w.Close(d); iw.w.Settle();
       // clients that lost subscriptions of their own do not exist here: only the departing session unsubscribes
       TakeView(iw, after, rest);
+      {Snap none; for (size_t i=0; i+1<ns; i++) iw.NoteQuiet(steps[i]["cmd"], who, none, after.sn);}     // quiet commands in the stream: the mirrors may lag for the nodes they touched
       CheckErased(iw, who, &before, after, when);
       iw.CompareWithModel(after.sn, steps[ns-1]["st"], who, true, when);
       if (!iw.viol.empty()) {g_violCases++; J row = IsoRow(beh, iw, when); row.set("cut", J::Int((int64_t) cut)); row.set("mode", J::Str(mode ? "bytewise" : "onepiece")); RepJ(row); return;}
@@ -499,7 +540,7 @@ static int IsoRandom(int argc, char ** argv)
                e.push(names); idx.push(e); }
             J marks = J::Arr(); for (std::map<std::string, std::map<std::string, uint32> >::const_iterator i = sn.marks.begin(); i != sn.marks.end(); ++i) for (std::map<std::string, uint32>::const_iterator j = i->second.begin(); j != i->second.end(); ++j) if (j->second) {J e = J::Arr(); e.push(StrList(SplitPath(i->first))); e.push(J::Str(j->first)); e.push(J::Int(j->second)); marks.push(e);}
             J params = J::Arr(); for (std::map<std::string, std::set<std::string> >::const_iterator i = sn.params.begin(); i != sn.params.end(); ++i) for (std::set<std::string>::const_iterator j = i->second.begin(); j != i->second.end(); ++j) {J e = J::Arr(); e.push(J::Str(i->first)); const size_t eq = j->find('='); e.push(J::Str(j->substr(0, eq))); e.push(J::Str(j->substr(eq+1))); params.push(e);}
-            J psub = J::Arr(); for (std::map<std::string, std::set<std::string> >::const_iterator i = sn.psub.begin(); i != sn.psub.end(); ++i) for (std::set<std::string>::const_iterator j = i->second.begin(); j != i->second.end(); ++j) {J e = J::Arr(); e.push(J::Str(i->first)); const bool abs = ((*j)[0] == '/'); e.push(J::Bool(abs)); e.push(StrList(SplitPath(abs ? *j : ("/" + *j)))); psub.push(e);}
+            J psub = J::Arr(); for (std::map<std::string, std::set<std::string> >::const_iterator i = sn.psub.begin(); i != sn.psub.end(); ++i) for (std::set<std::string>::const_iterator j = i->second.begin(); j != i->second.end(); ++j) {J e = J::Arr(); const size_t hp = j->rfind('#'); const std::string pp = j->substr(0, hp); e.push(J::Str(i->first)); const bool abs = (pp[0] == '/'); e.push(J::Bool(abs)); e.push(StrList(SplitPath(abs ? pp : ("/" + pp)))); e.push(J::Int(atoi(j->c_str()+hp+1))); psub.push(e);}
             J conn = J::Arr(); for (std::set<std::string>::const_iterator i = sn.conn.begin(); i != sn.conn.end(); ++i) conn.push(J::Str(*i));
             J mir = J::Arr(); for (std::map<std::string, std::map<std::string, uint32> >::const_iterator i = sn.mirror.begin(); i != sn.mirror.end(); ++i) for (std::map<std::string, uint32>::const_iterator j = i->second.begin(); j != i->second.end(); ++j) {J e = J::Arr(); e.push(J::Str(i->first)); e.push(StrList(SplitPath(j->first))); e.push(J::Int(j->second)); mir.push(e);}
             o.set("tree", tree).set("idx", idx).set("marks", marks).set("params", params).set("psub", psub).set("conn", conn).set("mirror", mir).set("h", J::Int(h)).set("k", J::Int(k+1));
